@@ -195,6 +195,10 @@ func (g *G) callOrdK(d int, mode string, intOnly bool) Expr {
 		if !intOnly {
 			cands = append(cands, callee{"h0", 0, false, nil}, callee{"hs", 2, false, []string{"string", "int64"}})
 		}
+		if mode == "expr" {
+			// nil function values: the call fails, its operands were each evaluated at most once
+			cands = append(cands, callee{"hnil1", 1, false, nil}, callee{"hnil2", 2, false, nil})
+		}
 	}
 	ce := cands[g.R.Intn(len(cands))]
 	g.feat("callee:" + ce.name)
@@ -444,6 +448,48 @@ func (g *G) orderStmt() []Stmt {
 		}
 		return []Stmt{mk, &Assign{LHS: []Expr{target}, RHS: []Expr{g.intOrd(d)}, Unaliased: true},
 			&ExprStmt{X: &Call{Fn: "rd", Args: []Expr{&StrLit{V: "ln"}, &Name{N: "ln"}}}}}
+	case r < 19 && g.R.Intn(3) == 0:
+		// the same nested-target assignment executed several times (loop body, function called
+		// again) with operands that differ each time: every execution evaluates its own operands
+		// once and stores into the container THEY designate. `lr` is built here and has no other name.
+		g.feat("stmt-nested-target-repeated")
+		elem := func() Expr {
+			return &MapLit{Keys: []Expr{&StrLit{V: "p"}, &StrLit{V: "q"}},
+				Vals: []Expr{&MapLit{Keys: []Expr{&StrLit{V: "x"}}, Vals: []Expr{&IntLit{V: 0}}}, &ListLit{Elems: []Expr{&IntLit{V: 0}, &IntLit{V: 0}}}}}
+		}
+		mk := &Assign{LHS: []Expr{&Name{N: "lr"}}, RHS: []Expr{&ListLit{Elems: []Expr{elem(), elem(), elem()}}}}
+		iv := "i8"
+		idx := func() Expr { return &Call{Fn: "pv", Args: []Expr{&IntLit{V: g.probeID()}, &Name{N: iv}}} }
+		at := func() Expr { return &Index{X: &Name{N: "lr"}, I: idx()} }
+		var target Expr
+		switch g.R.Intn(7) {
+		case 0:
+			target = &Member{X: &Member{X: at(), Name: "p"}, Name: "x"} // lr[i].p.x
+		case 1:
+			target = &Index{X: &Member{X: at(), Name: "q"}, I: &Call{Fn: "pv", Args: []Expr{&IntLit{V: g.probeID()}, &IntLit{V: int64(g.R.Intn(2))}}}} // lr[i].q[j]
+		case 2:
+			target = &Member{X: &Paren{X: at()}, Name: "p"} // (lr[i]).p
+		case 3:
+			target = &Index{X: &Paren{X: &Member{X: at(), Name: "q"}}, I: &IntLit{V: int64(g.R.Intn(2))}} // (lr[i].q)[j]
+		case 4:
+			target = &Index{X: &Index{X: at(), I: &StrLit{V: "q"}}, I: &IntLit{V: 1}} // lr[i]["q"][1]
+		case 5:
+			target = &Index{X: &Paren{X: at()}, I: &StrLit{V: "p"}} // (lr[i])["p"]
+		default:
+			target = &Member{X: &Index{X: at(), I: &StrLit{V: "p"}}, Name: "x"} // lr[i]["p"].x
+		}
+		val := &Call{Fn: "pv", Args: []Expr{&IntLit{V: g.probeID()}, &Binary{Op: "+", L: &Name{N: iv}, R: &IntLit{V: 10}}}}
+		store := &Assign{LHS: []Expr{target}, RHS: []Expr{val}}
+		rdl := &ExprStmt{X: &Call{Fn: "rd", Args: []Expr{&StrLit{V: "lr"}, &Name{N: "lr"}}}}
+		if g.R.Intn(2) == 0 {
+			return []Stmt{mk, &CFor{Init: &Assign{LHS: []Expr{&Name{N: iv}}, RHS: []Expr{&IntLit{V: 0}}},
+				Cond: &Binary{Op: "<", L: &Name{N: iv}, R: &IntLit{V: 3}}, Post: &OpAssign{Target: &Name{N: iv}, Op: "+"},
+				Body: []Stmt{store}}, rdl}
+		}
+		fn := g.fresh("put")
+		return []Stmt{mk, &ExprStmt{X: &FuncLit{Name: fn, Params: []string{iv}, Body: []Stmt{store, &Return{Exprs: []Expr{&IntLit{V: 0}}}}}},
+			&ExprStmt{X: &Call{Fn: fn, Args: []Expr{&IntLit{V: 2}}}}, &ExprStmt{X: &Call{Fn: fn, Args: []Expr{&IntLit{V: 0}}}},
+			&ExprStmt{X: &Call{Fn: fn, Args: []Expr{&IntLit{V: 1}}}}, rdl}
 	case r < 19 && g.R.Intn(2) == 0:
 		// all right-hand values are taken before the first store: the swap idiom
 		g.feat("stmt-swap-elements")
